@@ -9,7 +9,7 @@ from checks import sim, common
 
 BINS = ["vh-sim"]
 MC_CFG = "INIT MCInit\nNEXT MCNext\nVIEW View\nINVARIANT MonitorAccepts\nCHECK_DEADLOCK FALSE\n"
-TRACE_CFG = "INIT TraceInit\nNEXT TraceNext\nINVARIANT ContractHolds\nPOSTCONDITION TraceAccepted\nCHECK_DEADLOCK FALSE\n"
+TRACE_CFG = "INIT TraceInit\nNEXT TraceNext\nINVARIANT SoftContract\nPOSTCONDITION TraceAccepted\nCHECK_DEADLOCK FALSE\n"
 FAULTS = {"none": {}, "loss": {"drop": 12, "until_ms": 2000}, "dupflip": {"dup": 10, "flip": 6, "until_ms": 2000},
           "reorder": {"delay": 25, "until_ms": 2000}}
 
